@@ -289,6 +289,19 @@ func TestC08(t *testing.T) {
 			}
 			c.Ev.MarkExhaustive("11 contexts x 5 indentations x 7 strings spanning lines x 4 continuations")
 		})
+		// every construct of the grammar one token away from itself: each token of a corpus of small valid texts
+		// deleted, doubled, and each token of the alphabet inserted at each position (an extra comma before a closing
+		// bracket, a missing separator, a doubled keyword, …); the reference parser decides each text
+		c.Sub("single-token-edits", func(s *Sub) {
+			var k int64
+			nTexts := singleTokenEdits(func(text string) {
+				k++
+				if c.Mine(k) {
+					c.c08Text(s, "single-token-edits", text, true)
+				}
+			})
+			c.Ev.MarkExhaustive(fmt.Sprintf("%d small texts covering every construct x every single-token deletion, doubling, neighbour swap and insertion of each of the %d alphabet tokens", nTexts, len(tokenAlphabet)))
+		})
 		c.Sub("assignment-targets", func(s *Sub) {
 			if c.Shard != 0 {
 				return
